@@ -9,29 +9,45 @@
 EXTENDS TraceBase
 T == INSTANCE Scte35State WITH RingLen <- 10
 VARIABLE st
-Fresh == [ok |-> TRUE, s |-> T!InitState]
-Skip  == [ok |-> FALSE, s |-> T!InitState]
-Step(s, e) ==
+\* The spec state carried along a history: the tracker model and the descriptor of the immediately preceding
+\* call when that call was a ProcessDescriptor that went through or was itself rejected as a duplicate.
+NoLast == [ok |-> FALSE]
+Fresh == [ok |-> TRUE, s |-> T!InitState, lp |-> NoLast]
+Skip  == [ok |-> FALSE, s |-> T!InitState, lp |-> NoLast]
+\* How long a descriptor is remembered for duplicate detection (the record of received times holds ten distinct
+\* times) is not part of C10: only "twice in a row" is.  When model and code disagree on duplicate / not duplicate
+\* for a descriptor that is NOT an immediate repeat, the code's answer is adopted: "dup" leaves the state as it
+\* is, "ok" is the model's step from a state that remembers nothing.  (The capacity itself is checked by X03.)
+ImmediateRepeat(lp, d) == lp.ok /\ T!Equal(d, lp.d)
+Forget(s) == [s EXCEPT !.ring = T!InitState.ring]
+ProcessAs(s, e, lp) ==
+  LET r == T!ProcessF(s, e.d) IN
+  IF r.res # e.res /\ r.res \in {"ok", "dup"} /\ e.res \in {"ok", "dup"} /\ ~ImmediateRepeat(lp, e.d)
+  THEN IF e.res = "dup" THEN [s |-> s, res |-> "dup", closed |-> <<>>, discarded |-> <<>>, warn |-> "none"]
+       ELSE T!ProcessF(Forget(s), e.d)
+  ELSE r
+Step(s, e, lp) ==
   IF e.panic # "" THEN <<"panic", Skip>>
   ELSE IF e.op = "process" THEN
-       LET r == T!ProcessF(s, e.d) IN
+       LET r == ProcessAs(s, e, lp)
+           nlp == IF e.res \in {"ok", "dup"} THEN [ok |-> TRUE, d |-> e.d] ELSE NoLast IN
        IF r.res # e.res THEN <<"process-result-" \o r.res \o "-expected-got-" \o e.res, Skip>>
        ELSE IF T!Ids(r.closed) # e.closed THEN <<"process-closed-list", Skip>>
        ELSE IF T!Ids(T!OpenView(r.s)) # e.open THEN <<"process-open-list", Skip>>
-       ELSE <<"", [ok |-> TRUE, s |-> r.s]>>
+       ELSE <<"", [ok |-> TRUE, s |-> r.s, lp |-> nlp]>>
   ELSE IF e.op = "close" THEN
        LET r == T!CloseF(s, e.d) IN
        IF r.res # e.res THEN <<"close-result-" \o r.res \o "-expected-got-" \o e.res, Skip>>
        ELSE IF T!Ids(r.closed) # e.closed THEN <<"close-closed-list", Skip>>
        ELSE IF T!Ids(T!OpenView(r.s)) # e.open THEN <<"close-open-list", Skip>>
-       ELSE <<"", [ok |-> TRUE, s |-> r.s]>>
+       ELSE <<"", [ok |-> TRUE, s |-> r.s, lp |-> NoLast]>>
   ELSE IF e.op = "open" THEN
-       IF T!Ids(T!OpenView(s)) # e.open THEN <<"open-list", Skip>> ELSE <<"", [ok |-> TRUE, s |-> s]>>
+       IF T!Ids(T!OpenView(s)) # e.open THEN <<"open-list", Skip>> ELSE <<"", [ok |-> TRUE, s |-> s, lp |-> NoLast]>>
   ELSE <<"harness-unknown-op", Skip>>
 Init == l = 1 /\ st = Fresh
 Next == /\ l <= Len(Trace) /\ l' = l + 1
         /\ LET e == Trace[l]
                cur == IF e.first THEN Fresh ELSE st IN
            IF ~cur.ok THEN st' = Skip
-           ELSE LET r == Step(cur.s, e) IN Report(l, r[1]) /\ st' = r[2]
+           ELSE LET r == Step(cur.s, e, cur.lp) IN Report(l, r[1]) /\ st' = r[2]
 =============================================================================
